@@ -17,8 +17,8 @@ func NewEnv() *Env {
 
 func (e *Env) Inherit(parent *Env) *Env {
 	util.Assert(e.parent == nil, "env.parent != nil")
-	e.parent = parent
-	return e
+	// 不修改 e, 返回共享 ctx/fnTbl 的浅拷贝, 调用方的 env 可以重复使用
+	return &Env{parent, e.ctx, e.fnTbl}
 }
 
 func (e *Env) Derive() *Env {
